@@ -1679,12 +1679,14 @@ class JettonBridgeParams(TlbScheme):
         state_flags = cell_slice.load_uint(8)
         burn_bridge_fee = None
         prices = None
+        external_chain_address = None
         if tag == b'\x00':
             type_ = 'jetton_bridge_params_v0'
             burn_bridge_fee = cell_slice.load_coins()
         else:
             type_ = 'jetton_bridge_params_v1'
             prices = JettonBridgePrices.deserialize(cell_slice.load_ref().begin_parse())
+            external_chain_address = cell_slice.load_bytes(32)
         return cls(
             type_=type_,
             bridge_address=bridge_address,
@@ -1692,7 +1694,8 @@ class JettonBridgeParams(TlbScheme):
             oracles=oracles,
             state_flags=state_flags,
             burn_bridge_fee=burn_bridge_fee,
-            prices=prices
+            prices=prices,
+            external_chain_address=external_chain_address
         )
 
 
